@@ -227,6 +227,12 @@ def c10Hook (s : SyncCase) (h : Rec) : Option String :=
 def oracleC10 (s : SyncCase) : Option String :=
   let fin := s.finalizerName
   orElse (firstSome s.hooks (c10Hook s)) fun _ =>
+  -- without a finalize hook a leftover finalizer is removed: after an error-free sync the live parent (same UID) no longer carries it
+  orElse (match s.parent, s.parentAfter with
+    | some p, some q =>
+        check (s.finalizeEnabled || !hasFinalizer p fin || s.outcome != "ok" || getUID q != getUID p || s.calls.any (·.injected) || !hasFinalizer q fin)
+          "no finalize hook is configured, yet the controller's leftover finalizer is still on the parent after the sync"
+    | _, _ => none) fun _ =>
   -- parent writes touching our finalizer
   orElse (firstSome s.calls (fun r =>
     if !(s.isParentTarget r) || r.verb != "update" then none else
